@@ -415,13 +415,18 @@ structure MpfOut where
   size : Nat
   exp : Int
   d : List Nat
-  deriving Repr, BEq
+  deriving Repr, BEq, DecidableEq
 
 /-- `while (nlimbs != 0 && rp[nlimbs - 1] == 0) { nlimbs--; exp--; }` (mpf/urandomb.c:50-55):
     the limbs without their high zeros, and `exp = -(number of limbs dropped)`. -/
 def mpfStrip (l : List Nat) : List Nat × Int :=
   let l' := normalize l
   (l', -((l.length - l'.length : Nat) : Int))
+
+/-- the tail of `mpf_urandomb` (mpf/urandomb.c:50-57): strip, `EXP (rop) = (nlimbs == 0 ? 0 : exp)`, `SIZ (rop) = nlimbs`. -/
+def mpfFinish (l : List Nat) : MpfOut :=
+  let q := mpfStrip l
+  { size := q.1.length, exp := if q.1.length = 0 then 0 else q.2, d := q.1 }
 
 /-- `mpf_urandomb (rop, rstate, nbits)` (mpf/urandomb.c:28-60, repaired: a zero result has exponent 0);
     `prec` = `PREC (rop)` in limbs. -/
@@ -434,7 +439,6 @@ def mpfUrandomb (g : Gen) (prec nbits : Nat) : MpfOut × Gen :=
   let r := p.1 % 2 ^ (64 * nlimbs)
   -- if (nbits % 64 != 0) mpn_lshift (rp, rp, nlimbs, 64 - nbits % 64)
   let r := if nbits % 64 ≠ 0 then (r <<< (64 - nbits % 64)) % 2 ^ (64 * nlimbs) else r
-  let q := mpfStrip (toLimbs nlimbs r)
-  ({ size := q.1.length, exp := if q.1.length = 0 then 0 else q.2, d := q.1 }, p.2)
+  (mpfFinish (toLimbs nlimbs r), p.2)
 
 end Mpir.Rand
